@@ -14,7 +14,7 @@ from wv.refquery import ref_eval, to_whoosh, shape, walk
 
 PROP = "C09"
 LEVEL = "exploration"
-RULE = ("Each case = a generated index (1-4 commits, merges, document/field boosts; half the cases deletion-free) "
+RULE = ("scores: each case = a generated index (1-4 commits, merges, document/field boosts; half the cases deletion-free) "
         "x 5 generated query trees x one generated weighting configuration (BM25F with B/K1/per-field B, TF_IDF, "
         "Frequency, PL2, DFree, MultiWeighting, FunctionWeighting, a final() hook). Leaf layer (deletion-free indexes): "
         "Hit.score of every Term(t|w, word) equals a reference scorer that re-derives document frequency, weights "
@@ -23,7 +23,11 @@ RULE = ("Each case = a generated index (1-4 commits, merges, document/field boos
         "(sum / max / first operand / first+second / constant, times boosts) of the scores its sub-queries give that "
         "document when run alone on the same searcher. Independence: same score under limit=3 and under a filter. "
         "Non-trivial = a composite hit for which at least one child does not match the document, on an index with "
-        ">=2 segments; distinct by SHA-1 of (weighting kind, query shape, segment count).")
+        ">=2 segments; distinct by SHA-1 of (weighting kind, query shape, segment count). unionpaths: one segment "
+        "of 2049-5001 documents from a generated periodic recipe, generated queries containing an Or of >=3 clauses "
+        "run with every working implementation of Or (automatic choice, binary tree of unions, array-buffered "
+        "union): same documents, scores equal within 1e-5 relative (summation order differs); non-trivial = the "
+        "matches span more than one 2048-document part.")
 ASSUMPTIONS = [
     "the 1-byte field-length approximation (length_to_byte/byte_to_length) is part of the specification "
     "('its (approximated) field length')",
@@ -309,6 +313,89 @@ def run(case, out):
     out.key = nt
 
 
+# ---------------------------------------------------------------------------------------------------------
+# one big segment: every implementation of Or (binary tree of unions, array-buffered union that works in parts of
+# 2048 documents, the split hybrid) must give every document the same score
+
+def strategy_union(tier):
+    from wv.props import c01
+
+    def widen(case):
+        # every query becomes (part of) an Or with at least three clauses, built from the words of the recipe
+        words = [r["w"] for r in case["recipe"]]
+        qs = []
+        for i, q in enumerate(case["queries"]):
+            extra = [{"op": "term", "f": "t", "x": words[(i + j) % len(words)], "boost": [1.0, 2.0, 0.5][j % 3]} for j in range(2 + i % 3)]
+            qs.append({"op": "or", "qs": [q] + extra, "boost": 1.0})
+        return dict(case, queries=qs)
+    return c01.strategy_big(tier).map(widen)
+
+
+def run_union(case, out):
+    from whoosh import query as wq
+    from whoosh.filedb.filestore import RamStorage
+    from wv import corpus
+    from wv.refquery import to_whoosh, walk
+    n = case["ndocs"]
+    ix = RamStorage().create_index(corpus.build_schema({}))
+    wr = ix.writer()
+    for j in range(n):
+        t = [r["w"] for r in case["recipe"] if j >= r["from"] and (j + r["offset"]) % r["period"] == 0]
+        w = [r["w"] for r in case["kws"] if (j + r["offset"]) % r["period"] == 0]
+        wr.add_document(**corpus.doc_kwargs({"k": "k%d" % j, "t": t, "w": w, "n": j % 50, "d": None, "g": None}))
+    wr.commit()
+    if case["deleted_period"]:
+        wr = ix.writer()
+        for j in range(case["deleted_period"] - 1, n, case["deleted_period"]):
+            wr.delete_by_term("k", "k%d" % j)
+        wr.commit(merge=False)
+
+    def set_type(q, mt):
+        if isinstance(q, wq.Or):
+            q.matcher_type = mt
+        for c in q.children():
+            set_type(c, mt)
+        return q
+
+    s = ix.searcher()
+    try:
+        nt = False
+        for qj in case["queries"]:
+            if not any(x["op"] == "or" and len(x["qs"]) >= 3 for x in walk(qj)):
+                out.exclude("query_without_or_of_3")
+                continue
+            res = {}
+            for name, mt in (("auto", wq.Or.AUTO_MATCHER), ("tree", wq.Or.DEFAULT_MATCHER),
+                             ("array", wq.Or.ARRAY_MATCHER)):
+                # (Or.SPLIT_MATCHER refers to a matching.ArrayMatcher that does not exist: dead option, never chosen
+                # automatically; not exercised)
+                q = set_type(to_whoosh(qj), mt)
+                res[name] = dict((h.docnum, h.score) for h in s.search(q, limit=None))
+            base = res["tree"]
+            for name in ("auto", "array"):
+                other = res[name]
+                if set(other) != set(base):
+                    out.fail("c09.union_implementations_disagree:docs:%s" % name,
+                             {"q": qj, "only_tree": sorted(set(base) - set(other))[:5], "only_other": sorted(set(other) - set(base))[:5]})
+                    return
+                bad = [(dn, base[dn], other[dn]) for dn in base
+                       if abs(base[dn] - other[dn]) > 1e-5 * max(1.0, abs(base[dn]))]
+                if bad:
+                    out.fail("c09.union_implementations_disagree:scores:%s" % name,
+                             {"q": qj, "first": [list(b) for b in sorted(bad)[:4]], "count": len(bad), "ndocs": n})
+                    return
+            out.units += 1
+            if base and max(base) - min(base) > 2048:
+                nt = True
+        out.nontrivial = nt
+        out.key = [n, case["recipe"], case["queries"]]
+        out.label("ndocs_%d" % n)
+    finally:
+        s.close()
+        ix.close()
+
+
 SUBS = {
     "scores": Sub(run, strategy, quick=150, thorough=1500, quick_shards=8),
+    "unionpaths": Sub(run_union, strategy_union, quick=3, thorough=50, quick_shards=8),
 }
